@@ -26,6 +26,7 @@ QUICK_LS = list(range(0, 13)) + [16, 23, 32, 47]
 FULL_GRID_MAX = 1100      # ship the whole grid when it has at most this many points
 SUB_POINTS = 512          # else this many seeded points
 SINGLE_POINTS = 32
+NREF_SPARSE = 64          # reference points of sparse vectors (all other shipped points: route agreement)
 NPROBE = 6                # reference points of dense vectors (4 above L = 16)
 
 MC_CFG = """SPECIFICATION Spec
@@ -258,8 +259,10 @@ def drive(recipe):
     if gp:
         if dense:
             ri = sorted(rng.sample(range(len(gp)), min(NPROBE if L <= 16 else 4, len(gp))))
-        else:
+        elif len(gp) <= NREF_SPARSE:
             ri = list(range(len(gp)))
+        else:
+            ri = sorted(rng.sample(range(len(gp)), NREF_SPARSE))
         t["ri"] = [r + 1 for r in ri]
         t["gref"] = [ref_at_point(chan, theta[gp[r][0]], phi[gp[r][1]]) for r in ri]
     if full:
@@ -379,7 +382,7 @@ def recipes_for(ctx):
                 rs.append({"L": L, "kind": kind, "vec": spec, "prog": "eval", "seed": nxt(),
                            "ne": 8 if L <= 16 else 3})
             rng = random.Random(nxt())
-            for v in range(2 if ctx.quick else 4):
+            for v in range(2 if ctx.quick else 3):
                 rs.append({"L": L, "kind": kind, "vec": sparse_spec(L, kind, rng, 8), "prog": "eval", "seed": nxt(),
                            "ne": 20})
                 rs.append({"L": L, "kind": kind, "vec": sparse_spec(L, kind, rng, 6), "prog": "main", "seed": nxt(),
